@@ -232,6 +232,7 @@ const KEY_NAMES: [&str; 17] = [
 
 struct Heap {
     addr: usize,
+    size: usize,
     freed: bool,
 }
 
@@ -401,8 +402,8 @@ impl Worker {
     }
 
     /// registers a heap result of an op (kept until a later `fr`), returns its id
-    fn keep(&mut self, p: *mut c_void) -> usize {
-        self.heap.push(Heap { addr: p as usize, freed: false });
+    fn keep(&mut self, p: *mut c_void, size: usize) -> usize {
+        self.heap.push(Heap { addr: p as usize, size, freed: false });
         self.heap.len() - 1
     }
 
@@ -614,7 +615,7 @@ impl Worker {
                 if name == "cs" {
                     let p = chewing_cand_String(c);
                     got = self.take_heap(p, "cand_String").unwrap_or_default();
-                    self.keep(p.cast());
+                    self.keep(p.cast(), got.len() + 1);
                     self.tok("chewing_cand_String", &(p as usize).to_string(), &(!got.is_empty() as u8).to_string());
                 } else {
                     let p = chewing_cand_String_static(c);
@@ -767,7 +768,7 @@ impl Worker {
                 if name == "ks" {
                     let p = chewing_kbtype_String(c);
                     got = self.take_heap(p, "kbtype_String").unwrap_or_default();
-                    self.keep(p.cast());
+                    self.keep(p.cast(), got.len() + 1);
                     self.tok("chewing_kbtype_String", &(p as usize).to_string(), &(!got.is_empty() as u8).to_string());
                 } else {
                     let p = chewing_kbtype_String_static(c);
@@ -864,7 +865,7 @@ impl Worker {
             "ps" => {
                 let n = chewing_get_phoneSeqLen(c);
                 let p = chewing_get_phoneSeq(c);
-                self.keep(p.cast());
+                self.keep(p.cast(), 2 * n.max(0) as usize);
                 self.tok("chewing_get_phoneSeq", &format!("{}:{}", p as usize, n), "");
                 format!("len={}", n)
             }
@@ -881,7 +882,7 @@ impl Worker {
                     }
                 };
                 let t = self.take_heap(p, "heap getter").unwrap_or_default();
-                self.keep(p.cast());
+                self.keep(p.cast(), t.len() + 1);
                 self.tok(f, &(p as usize).to_string(), "");
                 format!("x{}", hexs(&t))
             }
@@ -891,7 +892,7 @@ impl Worker {
                 let r = chewing_config_get_str(c, nm.as_ptr(), &mut p);
                 let t = self.take_heap(p, "config_get_str").unwrap_or_default();
                 if !p.is_null() {
-                    self.keep(p.cast());
+                    self.keep(p.cast(), t.len() + 1);
                     self.tok("chewing_config_get_str", &(p as usize).to_string(), "");
                 }
                 format!("ret={} x{}", r, hexs(&t))
@@ -926,6 +927,36 @@ impl Worker {
                 }
                 self.heap[id].freed = true;
                 self.tok("chewing_free", &addr.to_string(), "");
+                format!("id={}", id)
+            }
+            "frs" => {
+                // a caller-owned block whose address equals that of a RELEASED library result (the allocator reuses it):
+                // chewing_free must ignore it — it is not a result of the library (same class as the interior pointer of
+                // chewing_get_selKey, which the documentation tells the caller to pass to chewing_free)
+                let cands: Vec<usize> = (0..self.heap.len())
+                    .filter(|i| self.heap[*i].freed && self.heap[*i].size > 0 && !self.heap.iter().any(|h| !h.freed && h.addr == self.heap[*i].addr))
+                    .collect();
+                if cands.is_empty() {
+                    return "none".into();
+                }
+                let id = cands[a1 as usize % cands.len()];
+                let (addr, size) = (self.heap[id].addr, self.heap[id].size);
+                let q = libc::malloc(size) as usize;
+                if q != addr {
+                    libc::free(q as *mut c_void);
+                    return "no-reuse".into();
+                }
+                chewing_free(q as *mut c_void);
+                self.tok("chewing_free", &q.to_string(), "");
+                let r = libc::malloc(size) as usize;
+                if r == q {
+                    // the library released the caller's block
+                    self.problem("free-stale", format!("chewing_free released a caller-owned block at {:#x} because a result released earlier had that address (stale OWNED entry)", q));
+                    libc::free(r as *mut c_void);
+                } else {
+                    libc::free(r as *mut c_void);
+                    libc::free(q as *mut c_void);
+                }
                 format!("id={}", id)
             }
             "fru" => {
@@ -1133,7 +1164,12 @@ fn gen_ops(rng: &mut Rng, disciplined: bool, len: usize) -> Vec<String> {
                 2 => "gsk".to_string(),
                 _ => format!("cgs:{}", rng.below(2)),
             }),
-            15 => new.push(format!("fr:{}", rng.below(8))),
+            15 => {
+                new.push(format!("fr:{}", rng.below(8)));
+                if rng.chance(1, 3) {
+                    new.push(format!("frs:{}", rng.below(8)));
+                }
+            }
             16 => new.push("fru".into()),
             17 => {
                 // walk the whole keyboard-type enumeration, mixing the two getter variants
